@@ -114,6 +114,22 @@ def run(chk):
     programs[0] = [alpha[0], alpha[1], alpha[2], fprofile.assign(fprofile.Y, fprofile.S(fprofile.V("w"), fprofile.V("w2"), fprofile.V("k")))]
     programs[1] = [fprofile.assign("a", fprofile.S(fprofile.V(fprofile.N), fprofile.C(1))), fprofile.assign("b", fprofile.S(fprofile.V(fprofile.M), fprofile.C(1))),
                    fprofile.acall(["a", "b"], "<func>g2", [fprofile.V("a"), fprofile.V("b")]), fprofile.assign(fprofile.N, fprofile.S(fprofile.V("a"), fprofile.V("b")))]
+    # several user-type temporaries whose last use is inside one loop; built-ins whose Fortran code comes from
+    # module-level call templates (matmul, transpose, linear_solve)
+    F = fprofile
+    programs[2] = [alpha[0], alpha[1], alpha[2],
+                   F.assign(F.Y, F.S(F.V(F.Y), F.P(F.V("i"), F.V("k")), F.V("w"), F.V("w2")), loops=[["i", F.C(0), F.C(2)]]),
+                   F.yield_(F.V(F.Y))]
+    fill = [F.assign("arr", ["call", F.V("<builtin>array"), [F.C(4)], []]),
+            F.assign("arr", F.S(F.V("i"), F.V(F.N)), sub=[F.V("i")], loops=[["i", F.C(0), F.C(4)]])]
+    programs[3] = fill + [F.acall(["mm"], "<builtin>matmul", [F.V("arr"), F.V("arr"), F.C(2), F.C(2)]),
+                          F.acall(["tt"], "<builtin>transpose", [F.V("mm"), F.C(2)]),
+                          F.assign(F.M, F.S(["sub", F.V("mm"), [F.C(1)]], ["sub", F.V("tt"), [F.C(2)]]))]
+    programs[4] = fill + [F.assign("rhsv", ["call", F.V("<builtin>array"), [F.C(2)], []]),
+                          F.assign("rhsv", F.S(F.V("i"), F.C(1)), sub=[F.V("i")], loops=[["i", F.C(0), F.C(2)]]),
+                          F.assign("arr", F.S(["sub", F.V("arr"), [F.C(0)]], F.C(5)), sub=[F.C(0)]),
+                          F.acall(["sol"], "<builtin>linear_solve", [F.V("arr"), F.V("rhsv"), F.C(2), F.C(1)]),
+                          F.assign(F.M, ["sub", F.V("sol"), [F.C(0)]])]
     methods = [{"phases": [{"name": "p0", "next": "p0", "calls": c}, {"name": "p1", "next": "p0", "calls": fprofile.P1_CALLS}],
                 "initial": "p0"} for c in programs]
     # methods over a different vocabulary of persistent names and phases (what an earlier generator object in
